@@ -122,6 +122,7 @@ def run_injection(lib, variant, ck, case):
   E = lib.enums
   M = float(E.mjMAXVAL)
   W = dict(pos=E.mjWARN_BADQPOS, vel=E.mjWARN_BADQVEL, acc=E.mjWARN_BADQACC, ctrl=E.mjWARN_BADCTRL)
+  asanproc.journal(dict(family='inject', phase='compile', variant=variant, xml=gm.xml))
   try:
     m = lib.model_from_xml(gm.xml)
   except mj.MjError:
@@ -413,7 +414,17 @@ def run_unstable(lib, variant, ck, case, nsteps):
     kinds = set()
     for k in range(nsteps):
       t0 = float(d.time)
-      lib.mj_step(m, d)
+      try:
+        lib.mj_step(m, d)
+      except mj.MjError as e:
+        if 'rank-deficient' in str(e):
+          ck.violation('unstable model: mj_step raised mju_error instead of warning+reset: %s' % str(e)[:200],
+                       dict(xml=gm.xml, seed=seed, vscale=vscale, cscale=cscale, step=k), bucket='mju_error-rank-deficient',
+                       fingerprint=KNOWN_RANK)
+          ck.case(nontrivial=True, key=('unstable-rank', gm.xml, seed, vscale, cscale, variant),
+                  labels=['unstable', 'mju_error:rank-deficient'])
+          return
+        raise
       bits = state_bits(d)
       nonfin = [f for f, a in zip(STATE + ('time',), bits) if not np.all(np.isfinite(a))]
       if nonfin:
